@@ -119,8 +119,10 @@ EXPORT void cplx_from_znx32_simple(uint32_t m, void* r, const int32_t* x) {
   static CPLX_FROM_ZNX32_PRECOMP precomp[32];
   CPLX_FROM_ZNX32_PRECOMP* p = precomp + log2m(m);
   if (!p->function) {
+    SPQLIOS_VERIF_EVENT(1, 11, log2m(m), 0, 0, 0);
     if (!init_cplx_from_znx32_precomp(p, m)) abort();
   }
+  SPQLIOS_VERIF_EVENT(2, 11, log2m(m), p->m, 0, 0);
   p->function(p, r, x);
 }
 
@@ -132,8 +134,10 @@ EXPORT void cplx_from_tnx32_simple(uint32_t m, void* r, const int32_t* x) {
   static CPLX_FROM_TNX32_PRECOMP precomp[32];
   CPLX_FROM_TNX32_PRECOMP* p = precomp + log2m(m);
   if (!p->function) {
+    SPQLIOS_VERIF_EVENT(1, 12, log2m(m), 0, 0, 0);
     if (!init_cplx_from_tnx32_precomp(p, m)) abort();
   }
+  SPQLIOS_VERIF_EVENT(2, 12, log2m(m), p->m, 0, 0);
   p->function(p, r, x);
 }
 /**
@@ -149,10 +153,12 @@ EXPORT void cplx_to_tnx32_simple(uint32_t m, double divisor, uint32_t log2overhe
   static __thread struct LAST_CPLX_TO_TNX32_PRECOMP precomp[32];
   struct LAST_CPLX_TO_TNX32_PRECOMP* p = precomp + log2m(m);
   if (!p->p.function || divisor != p->last_divisor || log2overhead != p->last_log2over) {
+    SPQLIOS_VERIF_EVENT(1, 13, log2m(m), 0, 0, 0);
     memset(p, 0, sizeof(*p));
     if (!init_cplx_to_tnx32_precomp(&p->p, m, divisor, log2overhead)) abort();
     p->last_divisor = divisor;
     p->last_log2over = log2overhead;
   }
+  SPQLIOS_VERIF_EVENT(2, 13, log2m(m), p->p.m, *(int64_t*)&p->last_divisor, (int64_t)p->last_log2over);
   p->p.function(&p->p, r, x);
 }
